@@ -313,7 +313,20 @@ func (x *Exec) builtin(name string, call *ast.CallExpr, env *Env) []Term {
 		doff := x.W.SeqOff(dst)
 		inR := And(Cmp("<=", doff, qi), Cmp("<", qi, Arith("+", doff, n)))
 		srcAt := Select(x.W.SeqBase(src), Arith("+", x.W.SeqOff(src), Arith("-", qi, doff)))
-		x.W.AddFact(env.pc, T("(forall (("+q+" Int)) "+Eq(Select(nb, qi), Ite(inR, srcAt, Select(x.W.SeqBase(dst), qi))).S+")", SBool))
+		if x.unroll > 0 {
+			// search mode: finite statement of the copy over the index window (plus the frame outside it is left free)
+			var cs []Term
+			for k := 0; k <= 2*searchMaxLen+2; k++ {
+				ki := Arith("+", x.W.SeqOff(x.eval(call.Args[0], env)), IntLit(0))
+				_ = ki
+				idx := IntLit(int64(k))
+				in := And(Cmp("<=", doff, idx), Cmp("<", idx, Arith("+", doff, n)))
+				cs = append(cs, Eq(Select(nb, idx), Ite(in, Select(x.W.SeqBase(src), Arith("+", x.W.SeqOff(src), Arith("-", idx, doff))), Select(x.W.SeqBase(dst), idx))))
+			}
+			x.W.AddFact(env.pc, And(cs...))
+		} else {
+			x.W.AddFact(env.pc, T("(forall (("+q+" Int)) "+Eq(Select(nb, qi), Ite(inR, srcAt, Select(x.W.SeqBase(dst), qi))).S+")", SBool))
+		}
 		// write back to the root slice variable
 		root := call.Args[0]
 		for {
@@ -327,6 +340,10 @@ func (x *Exec) builtin(name string, call *ast.CallExpr, env *Env) []Term {
 		if x.W.IsSeq(rv.Sort) {
 			nv, _ := x.W.WithField(rv, "base", nb)
 			nv.GoT = rv.GoT
+			if x.unroll > 0 {
+				x.assign(root, nv, env)
+				return []Term{n}
+			}
 			// element-level statement of the copy on the root sequence
 			c := x.W.Fresh("cpd", nv.Sort)
 			c.GoT = nv.GoT
